@@ -1021,12 +1021,6 @@ def obsOf : LoadResult → Obs
   | .rejected => none
   | .accepted l => some (l.map render)
 
-/-- what the model says the harness observes: as written = with the index, wrapped = plain evaluation;
-    the thread count does not enter the model -/
-def modelObs (w : World) (rules : Rules) (inv : Inventory) : LoadObs :=
-  { plain1 := obsOf (indexedFull w rules inv), wrap1 := obsOf (plainFull w rules inv)
-    plain16 := some (obsOf (indexedFull w rules inv)), wrap16 := some (obsOf (plainFull w rules inv)) }
-
 theorem sameSet_of_mem_iff {α : Type} [BEq α] [LawfulBEq α] {a b : List α} (h : ∀ x, x ∈ a ↔ x ∈ b) :
     sameSet a b = true := by
   simp only [sameSet, Bool.and_eq_true, List.all_eq_true, List.contains_iff_mem]
@@ -1078,30 +1072,6 @@ theorem indexedFull_equiv_plainFull (w : World) (rules : Rules) (inv : Inventory
   intro o ho
   rw [indexedOutcomes_equiv w (fun _ => Iff.rfl) hinv o]
   exact indexedOutcomes_iff_plainOutcomes w hsafe o ho
-
-theorem model_load_meets_spec_aux (w : World) (rules : Rules) (inv : Inventory) (silentIf : List ObjObs → Bool)
-    (hsafe : ∀ p ∈ rules, IndexSafe (extend inv (plainOutcomes w rules inv)) p.2) :
-    specLoad w rules inv silentIf (modelObs w rules inv) = none := by
-  have heq := indexedFull_equiv_plainFull w rules inv hsafe
-  unfold specLoad modelObs
-  simp only [sameObs_of_equiv heq, Option.map_some, sameObs_refl, Option.getD_some, Bool.and_self, Bool.not_true,
-    Bool.false_eq_true, if_false]
-  cases hexp : expectedCreated w rules inv with
-  | none => simp [expectedObjs, hexp]
-  | some exp =>
-    simp only [expectedObjs, hexp, Option.map_some]
-    split
-    · rfl
-    · obtain ⟨l, hl, hmem⟩ := expectedCreated_spec hexp
-      rw [hl] at heq ⊢
-      cases hi : indexedFull w rules inv with
-      | rejected => rw [hi] at heq; exact absurd heq (by simp [LoadResult.Equiv])
-      | accepted l' =>
-        rw [hi] at heq
-        simp only [LoadResult.Equiv] at heq
-        simp only [obsOf]
-        rw [checkExact_of_mem_iff fun c => (hmem c).trans (heq c).symm, checkExact_of_mem_iff hmem]
-
 
 /-! ### since commits b11cb6d / 77a9c63 the side conditions always hold -/
 
@@ -1164,9 +1134,9 @@ theorem apiExpected_spec {w : World} {fvars : Option (List (String × Val))} {ty
       exact ⟨_, ⟨t, ht, rfl⟩, by rw [hev t ht, hf]; rfl⟩
 
 theorem model_api_meets_spec_aux (w : World) (fvars : Option (List (String × Val))) (ty : TgtType) (e : Expr)
-    (inv : Inventory) (heq : ApiEquiv (apiTargets w fvars ty e inv) (apiSlow w fvars ty e inv)) :
-    specApi w fvars ty e inv { fast := apiTargets w fvars ty e inv, slow := apiSlow w fvars ty e inv } = none := by
-  unfold specApi
+    (inv : Inventory) (c : Option ApiCounts) (heq : ApiEquiv (apiTargets w fvars ty e inv) (apiSlow w fvars ty e inv)) :
+    specApiSets w fvars ty e inv { fast := apiTargets w fvars ty e inv, slow := apiSlow w fvars ty e inv, counts := c } = none := by
+  unfold specApiSets
   simp only [sameObs_of_apiEquiv heq, Bool.not_true, Bool.false_eq_true, if_false]
   cases hexp : apiExpected w fvars ty e inv with
   | none => rfl
